@@ -141,7 +141,129 @@ impl Rig {
     }
 }
 
-fn inputs_of(spec: &str, part: u64, parts: u64) -> Box<dyn Iterator<Item = Vec<u8>>> {
+/// Genuine client-to-server messages per channel, produced by the library's own client in a
+/// twin set-up (identical Apps, so entity ids in mapped events and trigger targets are valid).
+pub fn genuine_messages(config: Config) -> std::collections::BTreeMap<usize, Vec<Vec<u8>>> {
+    use crate::events::*;
+    let mut cfg = Cfg::default();
+    cfg.auth = Auth::ProtocolCheck;
+    cfg.events = config == Config::Full;
+    cfg.clients = vec![1200, 1200];
+    let mut sim = Sim::new(&cfg);
+    let mut out: std::collections::BTreeMap<usize, Vec<Vec<u8>>> = Default::default();
+    let mut grab = |sim: &mut Sim, out: &mut std::collections::BTreeMap<usize, Vec<Vec<u8>>>| {
+        for (ch, q) in sim.clients[1].c2s.iter().enumerate() {
+            for m in q {
+                out.entry(ch).or_default().push(m.bytes.to_vec());
+            }
+        }
+    };
+    sim.connect(1);
+    sim.client_frame(1).expect("client frame");
+    grab(&mut sim, &mut out); // the protocol hash
+    let lock = |sim: &mut Sim| {
+        for ch in 0..sim.client_channels.len() {
+            sim.deliver_to_server(1, ch, &Sel::All);
+        }
+        sim.server_frame(true).expect("server frame");
+        for ch in 0..sim.server_channels.len() {
+            sim.deliver_to_client(1, ch, &Sel::All);
+        }
+        sim.client_frame(1).expect("client frame");
+    };
+    for _ in 0..2 {
+        lock(&mut sim);
+    }
+    sim.apply_op(Op::Spawn(0, (1 << TA) | (1 << TB)));
+    for _ in 0..3 {
+        lock(&mut sim);
+    }
+    // an acknowledgement
+    sim.apply_op(Op::Mut(0, TA));
+    for ch in 0..sim.client_channels.len() {
+        sim.deliver_to_server(1, ch, &Sel::All);
+    }
+    sim.server_frame(true).expect("server frame");
+    for ch in 0..sim.server_channels.len() {
+        sim.deliver_to_client(1, ch, &Sel::All);
+    }
+    sim.client_frame(1).expect("client frame");
+    grab(&mut sim, &mut out);
+    for q in sim.clients[1].c2s.iter_mut() {
+        q.clear();
+    }
+    if config == Config::Full {
+        let e = sim.alive(0).unwrap();
+        let ce = *sim.clients[1]
+            .app
+            .world()
+            .resource::<bevy_replicon::shared::server_entity_map::ServerEntityMap>()
+            .to_client()
+            .get(&e)
+            .expect("entity replicated to the genuine client");
+        let w = sim.clients[1].app.world_mut();
+        w.send_event(C1(seq(CK::C1.tag(), 201)));
+        w.send_event(C2(seq(CK::C2.tag(), 202)));
+        w.send_event(C3(seq(CK::C3.tag(), 203)));
+        w.send_event(CM { seq: seq(CK::CM.tag(), 204), e: ce });
+        w.client_trigger_targets(CT(seq(CK::CT.tag(), 205)), ce);
+        sim.client_frame(1).expect("client frame");
+        grab(&mut sim, &mut out);
+    }
+    out
+}
+
+/// Truncations, byte substitutions, insertions and a doubling of a genuine message.
+fn mutations_of(g: &[u8]) -> Vec<Vec<u8>> {
+    let mut out: std::collections::BTreeSet<Vec<u8>> = Default::default();
+    out.insert(g.to_vec());
+    for cut in 0..g.len() {
+        out.insert(g[..cut].to_vec());
+    }
+    for i in 0..g.len() {
+        for b in [0x00u8, 0x01, 0x7f, 0x80, 0xff] {
+            let mut m = g.to_vec();
+            m[i] = b;
+            out.insert(m);
+        }
+        let mut m = g.to_vec();
+        m.insert(i, 0xff);
+        out.insert(m);
+    }
+    // structure-aware: splice one or two boundary varints in place of each byte
+    let b = varint_boundaries();
+    for i in 0..g.len() {
+        for b1 in &b {
+            let mut m = g[..i].to_vec();
+            m.extend_from_slice(b1);
+            m.extend_from_slice(&g[i + 1..]);
+            out.insert(m);
+            if b1.len() <= 2 {
+                for b2 in &b {
+                    let mut m = g[..i].to_vec();
+                    m.extend_from_slice(b1);
+                    m.extend_from_slice(b2);
+                    m.extend_from_slice(&g[i + 1..]);
+                    out.insert(m);
+                }
+            }
+        }
+    }
+    let mut d = g.to_vec();
+    d.extend_from_slice(g);
+    out.insert(d);
+    out.into_iter().collect()
+}
+
+fn inputs_of(config: Config, channel: usize, spec: &str, part: u64, parts: u64) -> Box<dyn Iterator<Item = Vec<u8>>> {
+    if spec == "legit" {
+        let corpus = genuine_messages(config);
+        let mut all: Vec<Vec<u8>> = Vec::new();
+        for g in corpus.get(&channel).cloned().unwrap_or_default() {
+            all.extend(mutations_of(&g));
+        }
+        return Box::new(all.into_iter().enumerate().filter(move |(i, _)| *i as u64 % parts == part).map(|(_, m)| m));
+    }
     if let Some(l) = spec.strip_prefix("short:") {
         let max_len: usize = l.parse().unwrap();
         let n = count_short(max_len);
@@ -150,6 +272,7 @@ fn inputs_of(spec: &str, part: u64, parts: u64) -> Box<dyn Iterator<Item = Vec<u
         let all = grammar_inputs(f.parse().unwrap());
         Box::new(all.into_iter().enumerate().filter(move |(i, _)| *i as u64 % parts == part).map(|(_, m)| m))
     } else if let Some(h) = spec.strip_prefix("one:") {
+        let _ = (config, channel);
         Box::new(std::iter::once(unhex(h)))
     } else {
         panic!("bad input spec {spec}")
@@ -164,7 +287,14 @@ pub fn worker(job_json: &str) -> i32 {
     let mut res = JobResult::default();
     let mut rig = Rig::new(job.config, job.sender);
     let mut since_health = 0u64;
-    for input in inputs_of(&job.inputs, job.part, job.parts) {
+    // For event channels, a genuine message of the well-behaved client is queued behind every
+    // attacker message in the same frame: it must still be handled.
+    let companion: Option<Vec<u8>> = if job.config == Config::Full && job.channel >= 2 && job.sender != Sender::Disconnecting {
+        genuine_messages(job.config).get(&job.channel).and_then(|v| v.first().cloned())
+    } else {
+        None
+    };
+    for input in inputs_of(job.config, job.channel, &job.inputs, job.part, job.parts) {
         journal.record(&input);
         res.inputs += 1;
         since_health += 1;
@@ -175,6 +305,14 @@ pub fn worker(job_json: &str) -> i32 {
                 .world_mut()
                 .resource_mut::<RepliconServer>()
                 .insert_received(conn, job.channel, input.clone());
+            if let Some(g) = &companion {
+                let good = rig.sim.clients[1].conn.expect("good client connection");
+                rig.sim
+                    .server
+                    .world_mut()
+                    .resource_mut::<RepliconServer>()
+                    .insert_received(good, job.channel, g.clone());
+            }
             if job.sender == Sender::Disconnecting {
                 rig.sim.disconnect(0);
             }
@@ -221,6 +359,25 @@ pub fn worker(job_json: &str) -> i32 {
                     }
                 }
                 res.max_alloc = res.max_alloc.max(max_alloc);
+                if companion.is_some() && !rebuilt {
+                    // run one more frame so that readers / observers in Update and PreUpdate see it
+                    let _ = guarded(|| rig.sim.server.update());
+                    res.frames += 1;
+                    let good = rig.sim.clients[1].conn.map(|e| e.to_bits());
+                    let seen = crate::events::drain_observed_opt(&mut rig.sim.server)
+                        .iter()
+                        .filter(|o| o.from == good && o.n >= 200)
+                        .count();
+                    if seen == 0 && res.bad.len() < 50 {
+                        res.outcomes.insert("companion-lost".into());
+                        res.bad.push(BadInput {
+                            oracle: "legit-event-lost".into(),
+                            input: hex(&input),
+                            detail: "a genuine event of the well-behaved client, queued behind this message in the same frame on the same channel, was not handled".into(),
+                            site: "companion".into(),
+                        });
+                    }
+                }
                 if max_alloc > alloc_bound(input.len()) {
                     res.outcomes.insert("oversized".into());
                     if res.bad.len() < 50 {
@@ -298,7 +455,10 @@ pub fn run(tier: Tier, _budget: f64, out: &mut Outcome) -> Result<(), MachineryE
                 if config == Config::Full && channel < 2 && !q {
                     continue;
                 }
-                let mut specs: Vec<(String, u64)> = vec![(format!("grammar:{}", if q { 2 } else { 3 }), if q { 1 } else { 4 })];
+                let mut specs: Vec<(String, u64)> = vec![
+                    (format!("grammar:{}", if q { 2 } else { 3 }), if q { 1 } else { 4 }),
+                    ("legit".to_string(), if q { 2 } else { 4 }),
+                ];
                 if sender != Sender::Disconnecting {
                     let (len, parts) = if q { (2, 2) } else { (3, 32) };
                     specs.push((format!("short:{len}"), parts));
